@@ -49,6 +49,10 @@ claim("C09", "static analysis: SSA same-object pairing of every store to Pivots.
       "Decides: every append of a child to a parent's links is paired (same straight-line region, same SSA objects) with child.Parent = parent and LinkAdd(parent, child); every removal outside LinkRemove is accompanied by LinkRemove for that parent; LinkRemove always reaches DB.LinkRemove and clears the child's Parent; LinkAdd always reaches DB.LinkAdd; the reconnect append of a packet-named existing agent is dominated by the negative outcome of a walk over .Pivots.Parent from the sender comparing with that agent, with nothing else conditioning the flag; no link list is shrunk inside its own range loop without leaving it. Not decided: the invariant over arbitrary event sequences, DB/list equality after failures of individual SQL statements.",
       TRUST, "DESIGN.md §4 C09")
 
+claim("C11", "static analysis: who-may-write and dominance rules on the retained event list, AST shape of the replay, lock dataflow (must-held set at the single websocket write, release on every exit), presence/dominance of a write deadline, control dependence of every fan-out send on the exclusion and authentication tests",
+      "Decides: EventAppend stores to the retained list exactly once, appending its argument, only on the OneTime != \"true\" edge and outside any loop; only ListenerRemove/EventRemove otherwise write the list; SendAllPackagesToNewClient ranges the retained list in index order sending each element to the new client, then the sessions skipping inactive ones; SendEvent performs exactly one WriteMessage per call with the client's mutex in the must-held set, preceded by SetWriteDeadline on the same connection, and every mutex is released on every exit; the EventBroadcast send is control-dependent on ExceptClient != key and on the client's Authenticated flag. Not decided: completeness under concurrent broadcasters (the retained list has no lock), delivery order across goroutines.",
+      TRUST, "DESIGN.md §3 R13/R3, §4 C11")
+
 for i in range(1, 21):
     pid = "C%02d" % i
     if pid not in CLAIMS and pid not in NA:
